@@ -169,49 +169,7 @@ func c02(c *Ctx) {
 		altLock: map[string]string{"ImmuStore.mandatoryMVCCUpToTxID": "ImmuStore.mutex"},
 		exempt:  map[string]string{storePkg + "OpenWith": "constructor"}})
 
-	// ---- C02.4 discard guard -----------------------------------------------------------------------
-	r = "C02.4/discard-guard"
-	if f := c.mustFn(r, storeT+"DiscardPrecommittedTxsSince"); f != nil {
-		guard := whenCond(false, func(a string) bool {
-			return strings.Contains(a, "committedTxID < param:txID") // txID <= committedTxID  ==  !(committedTxID < txID)
-		})
-		mut := map[string]sitePred{
-			"aht.ResetSize":               callTo("embedded/ahtree.(*AHtree).ResetSize"),
-			"cLogBuf.recedeWriter":        callTo("embedded/store.(*precommitBuffer).recedeWriter"),
-			"store inmemPrecommittedTxID": storeTo("ImmuStore.inmemPrecommittedTxID"),
-			"store inmemPrecommittedAlh":  storeTo("ImmuStore.inmemPrecommittedAlh"),
-		}
-		for _, n := range sortedKeys(mut) {
-			p := mut[n]
-			if len(sites(f, p)) == 0 {
-				c.undecided(r, fnName(f)+":"+n, "site not found")
-				continue
-			}
-			q := &pathQ{fn: f, fromEntry: true, to: p, barrier: guard}
-			// the guard edge is the one on which `committedTxID < txID` holds; remove it and the mutation must be unreachable
-			q.barrier = whenCond(true, func(a string) bool { return strings.Contains(a, "committedTxID < param:txID") })
-			if w := q.bypass(); w != nil {
-				c.fail(r, fnName(f)+":"+n, c.pos(w[len(w)-1].Pos()), n+" is reachable for txID <= committedTxID: "+c.witnessStr(w))
-			} else {
-				c.ok(r, fnName(f)+":"+n, c.pos(f.Pos()), n+" is dominated by the committedTxID < txID edge")
-			}
-		}
-		_ = guard
-		// the durable-precommit watermark recedes exactly to the new in-memory frontier, and only when it is ahead
-		for _, g := range append([]*ssa.Function{f}, f.AnonFuncs...) {
-			for _, in := range sites(g, callTo("embedded/watchers.(*WatchersHub).RecedeTo@durablePrecommitWHub")) {
-				a := desc(callOf(in).Args[1])
-				c.check(hasFieldSuffix(a, "inmemPrecommittedTxID"), r, fnName(f)+":durable-watermark-recedes-to-frontier", c.pos(in.Pos()),
-					"RecedeTo(inmemPrecommittedTxID)", "the durable-precommit watermark is receded to "+a+" instead of the in-memory precommit frontier")
-			}
-		}
-		// frontier never goes below the committed one: every value stored to the frontier is committedTxID or txID-1
-		for i, st := range sites(f, storeTo("ImmuStore.inmemPrecommittedTxID")) {
-			v := desc(st.(*ssa.Store).Val)
-			c.check(hasFieldSuffix(v, "committedTxID") || v == "(param:txID - const:1)", r, fmt.Sprintf("%s:frontier-value#%d", fnName(f), i), c.pos(st.Pos()),
-				"frontier reset to "+v, "frontier reset to unexpected value "+v)
-		}
-	}
+	c02DiscardGuard(c, "C02.4/discard-guard")
 	// aht.ResetSize callers in the store
 	c.ruleWhoMayCall("C02.4/aht-reset-sites", "aht.ResetSize", func(in ssa.Instruction) bool {
 		return callTo("embedded/ahtree.(*AHtree).ResetSize")(in) && fnInPkgs(in.Parent(), pk)
@@ -338,3 +296,50 @@ func (c *Ctx) ruleWhoMayStore(rule, field string, allowed []string, pkgs []strin
 // selfTestZeroRule documents that rules with an expected count of zero are exercised by the
 // fixture self-test in the thorough tier (see fixtures/).
 func (c *Ctx) selfTestZeroRule(rule string) {}
+
+// c02DiscardGuard: DiscardPrecommittedTxsSince refuses committed ids and recedes exactly to the new frontier
+// (shared by C02 and C07).
+func c02DiscardGuard(c *Ctx, r string) {
+	// ---- C02.4 discard guard -----------------------------------------------------------------------
+	if f := c.mustFn(r, storeT+"DiscardPrecommittedTxsSince"); f != nil {
+		guard := whenCond(false, func(a string) bool {
+			return strings.Contains(a, "committedTxID < param:txID") // txID <= committedTxID  ==  !(committedTxID < txID)
+		})
+		mut := map[string]sitePred{
+			"aht.ResetSize":               callTo("embedded/ahtree.(*AHtree).ResetSize"),
+			"cLogBuf.recedeWriter":        callTo("embedded/store.(*precommitBuffer).recedeWriter"),
+			"store inmemPrecommittedTxID": storeTo("ImmuStore.inmemPrecommittedTxID"),
+			"store inmemPrecommittedAlh":  storeTo("ImmuStore.inmemPrecommittedAlh"),
+		}
+		for _, n := range sortedKeys(mut) {
+			p := mut[n]
+			if len(sites(f, p)) == 0 {
+				c.undecided(r, fnName(f)+":"+n, "site not found")
+				continue
+			}
+			q := &pathQ{fn: f, fromEntry: true, to: p, barrier: guard}
+			// the guard edge is the one on which `committedTxID < txID` holds; remove it and the mutation must be unreachable
+			q.barrier = whenCond(true, func(a string) bool { return strings.Contains(a, "committedTxID < param:txID") })
+			if w := q.bypass(); w != nil {
+				c.fail(r, fnName(f)+":"+n, c.pos(w[len(w)-1].Pos()), n+" is reachable for txID <= committedTxID: "+c.witnessStr(w))
+			} else {
+				c.ok(r, fnName(f)+":"+n, c.pos(f.Pos()), n+" is dominated by the committedTxID < txID edge")
+			}
+		}
+		_ = guard
+		// the durable-precommit watermark recedes exactly to the new in-memory frontier, and only when it is ahead
+		for _, g := range append([]*ssa.Function{f}, f.AnonFuncs...) {
+			for _, in := range sites(g, callTo("embedded/watchers.(*WatchersHub).RecedeTo@durablePrecommitWHub")) {
+				a := desc(callOf(in).Args[1])
+				c.check(hasFieldSuffix(a, "inmemPrecommittedTxID"), r, fnName(f)+":durable-watermark-recedes-to-frontier", c.pos(in.Pos()),
+					"RecedeTo(inmemPrecommittedTxID)", "the durable-precommit watermark is receded to "+a+" instead of the in-memory precommit frontier")
+			}
+		}
+		// frontier never goes below the committed one: every value stored to the frontier is committedTxID or txID-1
+		for i, st := range sites(f, storeTo("ImmuStore.inmemPrecommittedTxID")) {
+			v := desc(st.(*ssa.Store).Val)
+			c.check(hasFieldSuffix(v, "committedTxID") || v == "(param:txID - const:1)", r, fmt.Sprintf("%s:frontier-value#%d", fnName(f), i), c.pos(st.Pos()),
+				"frontier reset to "+v, "frontier reset to unexpected value "+v)
+		}
+	}
+}
